@@ -54,7 +54,11 @@ func FlushInterval(interval time.Duration) LoggerOption {
 }
 
 func NewLogger(w io.Writer, label string, opts ...LoggerOption) (Logger, error) {
-	zapl, err := zap.NewProduction()
+	// every failed probe gets its own error record: the production preset samples
+	// (the first 100 entries with the same message per second, then every 100th)
+	conf := zap.NewProductionConfig()
+	conf.Sampling = nil
+	zapl, err := conf.Build()
 	if err != nil {
 		return nil, err
 	}
